@@ -17,7 +17,7 @@ RULE = (
 def profile(tier):
     return strategies.profile(
         max_faults=0,
-        kinds={"echo": 8, "raise": 5, "unp_arg": 4, "struct_arg": 2, "unp_res": 3, "big": 1, "bigarg": 1, "gate": 1},
+        kinds={"echo": 8, "raise": 5, "unp_arg": 4, "struct_arg": 2, "hugearg": 2, "unp_res": 3, "big": 1, "bigarg": 1, "gate": 1},
         ops={"submit": 12, "result": 2, "cancel": 1, "map": 1, "callback": 3, "sleep": 1, "wait_all": 1, "get": 0},
         timeouts=[None, None, 10],
         endings=["wait_all", "none", "wait_all", "wait_shutdown"],
@@ -25,7 +25,7 @@ def profile(tier):
     )
 
 
-FAIL = ("raise", "unp_arg", "struct_arg", "unp_res")
+FAIL = ("raise", "unp_arg", "struct_arg", "unp_res", "hugearg")
 
 
 def nontrivial(H):
@@ -46,4 +46,5 @@ def post_adjust(case):
     return case
 
 
+SWEEP = (8, 120)
 install(globals(), ID, 3000, 40000)
